@@ -423,7 +423,7 @@ pub fn check(property: &str, tier: &str, started: Instant) -> i32 {
         let sessions = if tier == "thorough" { 12 } else { 3 };
         let scratch = runner::verif_path("target/scratch");
         for k in 0..sessions {
-            match crate::stdio_check::run_session(&iwes, &scratch, rng::mix2(seed, 7000 + k)) {
+            match crate::stdio_check::run_session(&iwes, &scratch, (rng::mix2(seed, 7000 + k) / 3) * 3 + k % 3) {
                 Err(e) => {
                     eprintln!("HARNESS-ERROR: stdio session: {}", e);
                     return 2;
@@ -438,7 +438,7 @@ pub fn check(property: &str, tier: &str, started: Instant) -> i32 {
                         violations += 1;
                         let path = runner::replay_path(&format!("C12-stdio-{}-{}.json", seed, k));
                         let rv = json!({"world": "A-stdio", "property": "C12", "signature": sig, "seed": seed, "session": k, "minimised": false,
-                            "violation": {"kind": sig, "detail": detail}, "case": {"stdio_session_seed": rng::mix2(seed, 7000 + k)},
+                            "violation": {"kind": sig, "detail": detail}, "case": {"stdio_session_seed": (rng::mix2(seed, 7000 + k) / 3) * 3 + k % 3},
                             "how_to_replay": "cd /verif && ./check replay <this file>  (runs the same scripted session against the freshly built iwes binary; real stdio, timing not controlled)"});
                         if let Err(e) = runner::write_json(&path, &rv) {
                             eprintln!("HARNESS-ERROR: {}", e);
